@@ -25,7 +25,7 @@ def s(xs):
 
 def cfg(name, kinds, faults, script="none", conns=(0, 1), versions=(20,), maxcookie=3, budget=3, caps="CapsOne",
         v0=20, v1=20, cserials=(0,), events=(0,), wrong=(), inq=1, objuuids=(101, 102), initserial=0, wrap=False,
-        replay=None):
+        replay=None, senders=None, pool=("live", "dead", "never")):
     """replay = fault budget: the configuration is for MC_Replay.tla (history variable, behaviours printed)."""
     text = f"""SPECIFICATION {"Spec" if replay is None else "RSpec"}
 CONSTANTS
@@ -47,6 +47,8 @@ CONSTANTS
   WrongKinds = {s(wrong)}
   MsgBudget = {budget}
   InitSerial = {initserial}
+  Senders = {s(senders if senders is not None else conns)}
+  PoolKinds = {s(pool)}
   ScriptSel = "{script}"
   V0 = {v0}
   V1 = {v1}
@@ -105,3 +107,9 @@ for (nm, kinds, faults, kw) in [
         kw3["conns"] = (0, 1, 2)
     kw3["maxcookie"] = max(kw3.get("maxcookie", 3), 5)
     cfg("RS_" + nm, kinds, faults, budget=7, inq=3, replay=2, **kw3)
+
+# listener life cycle from a listener that already has an any-object filter while an object exists: every
+# sequence of three filter / start / stop requests of the owner (live cookies only)
+LSTF = ["AddBusListenerFilter", "RemoveBusListenerFilter", "ClearBusListenerFilters", "StartBusListener", "StopBusListener"]
+cfg("R_ListenersF", LSTF, [], script="lstf", budget=3, inq=1, replay=0, senders=(0,), pool=("live",), objuuids=(101,))
+cfg("MC_ListenersF", LSTF + ["CreateObject", "DestroyObject"], ["ends"], script="lstf", budget=4, senders=(0, 1), pool=("live",), objuuids=(101,), maxcookie=4)
